@@ -221,6 +221,30 @@ Theorem C04_mime_header_round_trip : forall bufsize fs rest,
 Proof. exact mime_header_round_trip. Qed.
 Print Assumptions C04_mime_header_round_trip.
 
+(* rejections: a first header line starting with a blank is never accepted; a header line
+   without a colon is rejected *)
+Theorem C04_leading_blank_rejected : forall bufsize x s,
+  is_sp_tab x = true ->
+  read_mime_header bufsize (x :: s) = inl HMalformedHeader \/
+  read_mime_header bufsize (x :: s) = inl HUnexpectedEOF.
+Proof. exact leading_blank_rejected. Qed.
+Print Assumptions C04_leading_blank_rejected.
+
+Theorem C04_no_colon_rejected : forall bufsize fuel m s line r,
+  read_line bufsize s = Some (line, r) -> line <> [] ->
+  mem_byte COLON line = false -> mime_loop (S fuel) bufsize m s = inl HMalformedHeader.
+Proof. exact mime_loop_step_rejects. Qed.
+Print Assumptions C04_no_colon_rejected.
+
+(* trailers: a non-empty well-formed trailer block (foldable fields) whose blank line lies
+   within the read buffer is read back as sent, and the message ends right after it *)
+Theorem C04_trailer_round_trip : forall bufsize ts rest,
+  ts <> [] -> Forall field_ok ts ->
+  length (render_fields ts ++ CRLF) <= bufsize ->
+  read_trailer bufsize (render_fields ts ++ CRLF ++ rest) = inr (header_of_fields ts, rest).
+Proof. exact trailer_round_trip. Qed.
+Print Assumptions C04_trailer_round_trip.
+
 (* an ACCEPTED header map: keys are fixed points of canonicalMIMEHeaderKey and unique, every
    value consists of field-value bytes only (no CTL but HT, no DEL) and has no leading blank *)
 Theorem C04_mime_header_accepted_ok : forall bufsize s m r,
